@@ -354,11 +354,25 @@ class Impl:
     def power_flag(self) -> Optional[int]:
         return None if self.pc is None else (1 if self.pc.operating_state.name == "ON" else 0)
 
-    def reported(self) -> dict:
+    def reported(self, state: Optional[dict] = None) -> dict:
         """`file_system` as the simulation reports it for this node (what the game and the observations read)."""
         if self.pc is None:
             return self.fs.describe_state()
-        return self.sim.describe_state()["network"]["nodes"]["pc"]["file_system"]
+        state = state if state is not None else self.sim.describe_state()
+        return state.get("network", {}).get("nodes", {}).get("pc", {}).get("file_system") or {}
+
+    def host_observation(self, state: Optional[dict] = None) -> Optional[dict]:
+        """What an agent's HostObservation of this node shows (surface "net"), read from the simulation state as the game does."""
+        if self.pc is None:
+            return None
+        if getattr(self, "_hostobs", None) is None:
+            from primaite.game.agent.observations.host_observations import HostObservation
+            self._hostobs = HostObservation(
+                where=["network", "nodes", "pc"], services=[], applications=[], folders=[], network_interfaces=[], num_services=0,
+                num_applications=0, num_folders=0, num_files=0, num_nics=0, include_nmne=False, monitored_traffic=None,
+                include_num_access=True, file_system_requires_scan=False, services_requires_scan=False,
+                applications_requires_scan=False, include_users=False)
+        return self._hostobs.observe(state if state is not None else self.sim.describe_state())
 
     def apply(self, op: list) -> str:
         k = op[0]
@@ -450,12 +464,27 @@ def run_impl(case: dict) -> Tuple[List[str], List[List[str]], List[Optional[int]
                 tally[0] += delta[0]
                 tally[1] += delta[1]
         if k in ("pre", "tick") or impl.pc is None:
-            rep = (impl.reported() if impl.pc is not None else
+            sim_state = impl.sim.describe_state() if impl.pc is not None else None
+            rep = (impl.reported(sim_state) if impl.pc is not None else
                    {"num_file_creations": impl.fs.num_file_creations, "num_file_deletions": impl.fs.num_file_deletions})
-            if k == "pre" and (rep["num_file_creations"], rep["num_file_deletions"]) != (0, 0):
-                bad.append("reported-counters-zero-at-tick-start")
-            if tally is not None and [rep["num_file_creations"], rep["num_file_deletions"]] != tally:
-                bad.append("counters-count-this-tick-only")
+            if "num_file_creations" not in rep or "num_file_deletions" not in rep:
+                bad.append("node-does-not-report-its-file-system")
+            else:
+                if k == "pre" and (rep["num_file_creations"], rep["num_file_deletions"]) != (0, 0):
+                    bad.append("reported-counters-zero-at-tick-start")
+                if tally is not None and [rep["num_file_creations"], rep["num_file_deletions"]] != tally:
+                    bad.append("counters-count-this-tick-only")
+                if impl.pc is not None and (sorted(rep.get("folders", {})) != sorted(g.name for g in impl.fs.folders.values())
+                                            or set(rep.get("deleted_folders", {})) != {g.name for g in impl.fs.deleted_folders.values()}):
+                    bad.append("node-report-lists-other-folders")
+            if impl.pc is not None and tally is not None:
+                # what the agent sees: non-zero only for a node that is ON and only for this tick's operations (the encoding
+                # of the count itself is C02's / C09's matter)
+                ob = impl.host_observation(sim_state)
+                on = impl.power_flag() == 1
+                for key, cnt in (("num_file_creations", tally[0]), ("num_file_deletions", tally[1])):
+                    if (ob.get(key, 0) != 0) != (on and cnt != 0):
+                        bad.append("host-observation-shows-this-tick-only")
         verdicts.append(sorted(set(bad)))
     return out, verdicts, flags
 
